@@ -104,7 +104,14 @@ func (p *Processor) handleMessage(ctx context.Context, k *common.MessagePublicat
 		// unmarshal vaa
 		var existing *vaa.VAA
 		if existing, err = vaa.Unmarshal(vb); err != nil {
-			panic("failed to unmarshal VAA from db")
+			// A stored VAA that does not decode (e.g. one with an empty payload, which the
+			// encoder accepts but the decoder rejects) must not take the whole node down.
+			p.logger.Error("failed to unmarshal VAA from db, ignoring observation",
+				zap.Stringer("emitter_chain", k.EmitterChain),
+				zap.Stringer("emitter_address", k.EmitterAddress),
+				zap.Uint64("sequence", k.Sequence),
+				zap.Error(err))
+			return
 		}
 
 		if k.Timestamp.Sub(existing.Timestamp) > settlementTime {
